@@ -2,6 +2,7 @@ package rules
 
 import (
 	"fmt"
+	"go/ast"
 	"go/constant"
 	"go/token"
 	"go/types"
@@ -200,7 +201,7 @@ func runC03(c *Ctx) {
 	}
 	cmdOf := map[string]string{} // type name -> command name
 	for _, ct := range ctors {
-		cmdOf[ct.T.Obj().Name()] = ct.name
+		cmdOf[core.TypeNameOf(ct.T.Obj())] = ct.name
 		if cmdSwitch == nil {
 			continue
 		}
@@ -215,7 +216,7 @@ func runC03(c *Ctx) {
 		if cs == nil {
 			R.Fail("C03.dispatch-cmd", key, P.Pos(ct.fn.Pos()),
 				fmt.Sprintf("packets built by %s carry command %q but the command dispatcher has no case for it: the peer decodes them as the generic call packet, not as *%s",
-					ct.fn.Name(), ct.name, ct.T.Obj().Name()), nil)
+					ct.fn.Name(), ct.name, core.TypeNameOf(ct.T.Obj())), nil)
 			continue
 		}
 		rets, _ := core.ClauseResultTypes(info, cs.Clause)
@@ -226,8 +227,8 @@ func runC03(c *Ctx) {
 			}
 		}
 		R.Check(ok, "C03.dispatch-cmd", key, P.Pos(cs.Clause.Pos()),
-			fmt.Sprintf("command %q dispatches to *%s", ct.name, ct.T.Obj().Name()),
-			fmt.Sprintf("the dispatcher's case for %q does not construct *%s", ct.name, ct.T.Obj().Name()), nil)
+			fmt.Sprintf("command %q dispatches to *%s", ct.name, core.TypeNameOf(ct.T.Obj())),
+			fmt.Sprintf("the dispatcher's case for %q does not construct *%s", ct.name, core.TypeNameOf(ct.T.Obj())), nil)
 	}
 	if cmdSwitch != nil {
 		def := cmdSwitch.DefaultCase()
@@ -273,7 +274,7 @@ func runC03(c *Ctx) {
 			}
 			tf := P.SSA.MethodValue(m)
 			val, ok := constMethodResult(tf)
-			key := "rtmp|" + T.Obj().Name() + "|Type"
+			key := "rtmp|" + core.TypeNameOf(T.Obj()) + "|Type"
 			if !ok {
 				R.Unknown("C03.dispatch-type", key, P.Pos(tf.Pos()), "Type() does not return one constant", nil)
 				continue
@@ -281,7 +282,7 @@ func runC03(c *Ctx) {
 			cs := tsw.CaseFor(val)
 			if cs == nil {
 				R.Fail("C03.dispatch-type", key, P.Pos(tf.Pos()),
-					fmt.Sprintf("message type %v of *%s has no case in DecodeMessage: such packets cannot be decoded by the peer", val, T.Obj().Name()), nil)
+					fmt.Sprintf("message type %v of *%s has no case in DecodeMessage: such packets cannot be decoded by the peer", val, core.TypeNameOf(T.Obj())), nil)
 				continue
 			}
 			_, assigns := core.ClauseResultTypes(dinfo, cs.Clause)
@@ -301,8 +302,8 @@ func runC03(c *Ctx) {
 			isCmd := hasField(T, "CommandName")
 			ok2 := (isCmd && routes) || (!isCmd && constructs)
 			R.Check(ok2, "C03.dispatch-type", key, P.Pos(cs.Clause.Pos()),
-				fmt.Sprintf("message type %v decodes to *%s (%s)", val, T.Obj().Name(), map[bool]string{true: "via the command dispatcher", false: "constructed in the case"}[isCmd]),
-				fmt.Sprintf("the case for message type %v neither constructs *%s nor routes to the command dispatcher", val, T.Obj().Name()), nil)
+				fmt.Sprintf("message type %v decodes to *%s (%s)", val, core.TypeNameOf(T.Obj()), map[bool]string{true: "via the command dispatcher", false: "constructed in the case"}[isCmd]),
+				fmt.Sprintf("the case for message type %v neither constructs *%s nor routes to the command dispatcher", val, core.TypeNameOf(T.Obj())), nil)
 		}
 		def := tsw.DefaultCase()
 		okDef := false
@@ -720,9 +721,50 @@ func checkResponseTable(c *Ctx, parse *ssa.Function, cmdOf map[string]string) {
 		}
 	}
 	if inner == nil {
+		// the table moved into a helper: a function parseAMFObject calls whose switch is over one of its own
+		// amf0.String parameters (the request name handed in)
+		var callees []*ssa.Function
+		core.EachInstr(parse, func(in ssa.Instruction) {
+			if call, ok := in.(*ssa.Call); ok {
+				if f := call.Call.StaticCallee(); f != nil && core.InModule(f) && f.Parent() == nil && len(f.Blocks) > 0 {
+					callees = append(callees, f)
+				}
+			}
+		})
+		for _, f := range callees {
+			_, finfo := P.Body(f)
+			if finfo == nil {
+				continue
+			}
+			if s := P.SwitchOnType(f, "amf0.String"); s != nil && inner == nil {
+				if id, ok := s.Tag.(*ast.Ident); ok {
+					if v, isVar := finfo.ObjectOf(id).(*types.Var); isVar {
+						for i := 0; i < f.Signature.Params().Len(); i++ {
+							if f.Signature.Params().At(i) == v {
+								inner, info = s, finfo
+							}
+						}
+					}
+				}
+			}
+		}
+	}
+	var chain *cmpChain
+	if inner == nil {
+		// the table written as an if/else-if chain: comparisons of one amf0.String value (not the command name the
+		// outer dispatch tests) with constants
+		chain = stringCompareChain(P, parse)
+	}
+	if inner == nil && chain == nil {
 		R.Unknown("C03.txn", "rtmp|(*Protocol).parseAMFObject|response-table", P.Pos(parse.Pos()),
-			"the request->response table is no longer a switch over the request name", nil)
+			"the request->response table is no longer a switch (or an if/else-if chain) over the request name", nil)
 		return
+	}
+	tablePos := ""
+	if inner != nil {
+		tablePos = P.Pos(inner.Stmt.Pos())
+	} else {
+		tablePos = chain.pos
 	}
 	// registered types: the type switch in the function that updates the transaction table
 	var reg *ssa.Function
@@ -780,62 +822,181 @@ func checkResponseTable(c *Ctx, parse *ssa.Function, cmdOf map[string]string) {
 	R.Check(lossy == "" && nKeys >= 3, "C03.txn", "rtmp|transaction-key|is-the-id-itself", P.Pos(reg.Pos()),
 		fmt.Sprintf("requests are registered and responses matched (%d key uses) under the transaction id itself", nKeys),
 		"the transaction table is keyed by a converted id ("+lossy+"): two different ids can match one request, so a response is typed by a request it does not answer", nil)
+	// the packet types whose transactions are registered: the types the packet is tested for (a type switch and a chain
+	// of comma-ok assertions are the same instructions)
 	var regTypes []*types.Named
-	for _, s := range P.Switches(reg) {
-		if !s.IsType {
-			continue
+	core.EachInstr(reg, func(in ssa.Instruction) {
+		ta, ok := in.(*ssa.TypeAssert)
+		if !ok || !ta.CommaOk {
+			return
 		}
-		for _, cs := range s.Cases {
-			for _, t := range cs.Types {
-				if p, ok := t.(*types.Pointer); ok {
-					if n, ok := p.Elem().(*types.Named); ok {
-						regTypes = append(regTypes, n)
+		if _, isPar := core.StripConv(ta.X).(*ssa.Parameter); !isPar {
+			return
+		}
+		if p, ok := ta.AssertedType.(*types.Pointer); ok {
+			if n, ok := p.Elem().(*types.Named); ok {
+				for _, o := range regTypes {
+					if o == n {
+						return
 					}
 				}
+				regTypes = append(regTypes, n)
 			}
 		}
-	}
+	})
 	if len(regTypes) == 0 {
 		R.Unknown("C03.txn", "rtmp|"+core.FuncName(reg)+"|registered-types", P.Pos(reg.Pos()),
 			"cannot extract the packet types whose transactions are registered (no type switch)", nil)
 		return
 	}
 	for _, T := range regTypes {
-		name, ok := cmdOf[T.Obj().Name()]
-		key := "rtmp|response-for|" + T.Obj().Name()
+		name, ok := cmdOf[core.TypeNameOf(T.Obj())]
+		key := "rtmp|response-for|" + core.TypeNameOf(T.Obj())
 		if !ok {
-			R.Unknown("C03.txn", key, P.Pos(reg.Pos()), "no constructor with a constant command name for registered type "+T.Obj().Name(), nil)
+			R.Unknown("C03.txn", key, P.Pos(reg.Pos()), "no constructor with a constant command name for registered type "+core.TypeNameOf(T.Obj()), nil)
 			continue
 		}
-		cs := inner.CaseFor(constant.MakeString(name))
-		if cs == nil {
-			R.Fail("C03.txn", key, P.Pos(inner.Stmt.Pos()),
-				fmt.Sprintf("requests of type *%s (%q) are registered but the response table has no entry for %q: their _result cannot be typed", T.Obj().Name(), name, name), nil)
-			continue
+		var rets []types.Type
+		casePos := tablePos
+		if inner != nil {
+			cs := inner.CaseFor(constant.MakeString(name))
+			if cs == nil {
+				R.Fail("C03.txn", key, tablePos,
+					fmt.Sprintf("requests of type *%s (%q) are registered but the response table has no entry for %q: their _result cannot be typed", core.TypeNameOf(T.Obj()), name, name), nil)
+				continue
+			}
+			rets, _ = core.ClauseResultTypes(info, cs.Clause)
+			casePos = P.Pos(cs.Clause.Pos())
+		} else {
+			blk, ok := chain.cases[name]
+			if !ok {
+				R.Fail("C03.txn", key, tablePos,
+					fmt.Sprintf("requests of type *%s (%q) are registered but the response table has no entry for %q: their _result cannot be typed", core.TypeNameOf(T.Obj()), name, name), nil)
+				continue
+			}
+			rets = returnTypesUnder(parseFnOf(chain), blk)
+			casePos = P.Pos(blk.Instrs[0].Pos())
 		}
-		rets, _ := core.ClauseResultTypes(info, cs.Clause)
 		okT := false
 		var rt string
 		for _, t := range rets {
 			if p, isP := t.(*types.Pointer); isP {
 				if n, isN := p.Elem().(*types.Named); isN && hasField(n, "CommandName") && !types.Identical(n, T) {
 					okT = true
-					rt = n.Obj().Name()
+					rt = core.TypeNameOf(n.Obj())
 				}
 			}
 		}
-		R.Check(okT, "C03.txn", key, P.Pos(cs.Clause.Pos()),
+		R.Check(okT, "C03.txn", key, casePos,
 			fmt.Sprintf("a _result for %q is decoded as *%s", name, rt),
 			fmt.Sprintf("the response table entry for %q does not construct a response packet", name), nil)
 	}
-	def := inner.DefaultCase()
 	okDef := false
-	if def != nil {
-		n, nilErr := core.ClauseReturns(info, def.Clause)
+	if inner != nil {
+		if def := inner.DefaultCase(); def != nil {
+			n, nilErr := core.ClauseReturns(info, def.Clause)
+			okDef = n > 0 && nilErr == 0
+		}
+	} else if chain.rest != nil {
+		// what follows the last comparison's false edge: every return there reports an error
+		n, nilErr := 0, 0
+		fn := parseFnOf(chain)
+		ei := core.ErrResultIndex(fn)
+		for _, r := range core.Returns(fn) {
+			if r.Block() == chain.rest || chain.rest.Dominates(r.Block()) {
+				n++
+				if ei >= 0 && core.IsNilConst(core.ReturnOperand(r, ei)) {
+					nilErr++
+				}
+			}
+		}
 		okDef = n > 0 && nilErr == 0
 	}
-	R.Check(okDef, "C03.txn", "rtmp|(*Protocol).parseAMFObject|response-table-default", P.Pos(inner.Stmt.Pos()),
+	R.Check(okDef, "C03.txn", "rtmp|(*Protocol).parseAMFObject|response-table-default", tablePos,
 		"a response to a request of unknown kind is an error", "the response table has no default that returns an error", nil)
+}
+
+// cmpChain is a request->response table written as comparisons of one string value with constants.
+type cmpChain struct {
+	fn    *ssa.Function
+	pos   string
+	cases map[string]*ssa.BasicBlock // constant -> block entered when the comparison holds
+	rest  *ssa.BasicBlock            // block entered when the last comparison fails
+}
+
+func parseFnOf(c *cmpChain) *ssa.Function { return c.fn }
+
+// stringCompareChain finds, in fn or a module function it calls, the group of `x == "const"` branches over one
+// amf0.String value x that does not test the response command names themselves ("_result"/"_error").
+func stringCompareChain(P *core.Program, fn *ssa.Function) *cmpChain {
+	cands := []*ssa.Function{fn}
+	core.EachInstr(fn, func(in ssa.Instruction) {
+		if call, ok := in.(*ssa.Call); ok {
+			if f := call.Call.StaticCallee(); f != nil && core.InModule(f) && f.Parent() == nil && len(f.Blocks) > 0 {
+				cands = append(cands, f)
+			}
+		}
+	})
+	for _, f := range cands {
+		groups := map[string]*cmpChain{}
+		var order []string
+		for _, b := range f.DomPreorder() {
+			if len(b.Instrs) == 0 {
+				continue
+			}
+			iff, ok := b.Instrs[len(b.Instrs)-1].(*ssa.If)
+			if !ok {
+				continue
+			}
+			bo, ok := iff.Cond.(*ssa.BinOp)
+			if !ok || bo.Op != token.EQL {
+				continue
+			}
+			x, k := bo.X, bo.Y
+			if _, isC := core.StripConv(x).(*ssa.Const); isC {
+				x, k = k, x
+			}
+			name, isStr := core.ConstString(k)
+			if !isStr || !strings.HasSuffix(types.TypeString(x.Type(), nil), "amf0.String") {
+				continue
+			}
+			p := core.Path(x)
+			g := groups[p]
+			if g == nil {
+				g = &cmpChain{fn: f, pos: P.InstrPos(iff), cases: map[string]*ssa.BasicBlock{}}
+				groups[p] = g
+				order = append(order, p)
+			}
+			g.cases[name] = b.Succs[0]
+			g.rest = b.Succs[1]
+		}
+		for _, p := range order {
+			g := groups[p]
+			if _, outer := g.cases["_result"]; outer {
+				continue
+			}
+			if len(g.cases) >= 2 {
+				return g
+			}
+		}
+	}
+	return nil
+}
+
+// returnTypesUnder lists the dynamic types of the first result of the returns dominated by blk.
+func returnTypesUnder(fn *ssa.Function, blk *ssa.BasicBlock) []types.Type {
+	var out []types.Type
+	for _, r := range core.Returns(fn) {
+		if (r.Block() == blk || blk.Dominates(r.Block())) && len(r.Results) > 0 {
+			v := core.ReturnOperand(r, 0)
+			if mi, ok := v.(*ssa.MakeInterface); ok {
+				out = append(out, mi.X.Type())
+			} else {
+				out = append(out, v.Type())
+			}
+		}
+	}
+	return out
 }
 
 // memberCalls lists, in execution order along the dominator-ordered blocks, the receivers
@@ -913,13 +1074,13 @@ func checkMarshalOrder(c *Ctx, pts []*types.Named) {
 		for _, x := range uc {
 			us1 = append(us1, x.path)
 		}
-		key := "rtmp|" + T.Obj().Name() + "|member-order"
+		key := "rtmp|" + core.TypeNameOf(T.Obj()) + "|member-order"
 		R.Check(strings.Join(ms1, ",") == strings.Join(us1, ","), "C03.order", key, P.Pos(uf.Pos()),
 			"members are decoded in the order they are encoded: "+strings.Join(ms1, ", "),
 			"UnmarshalBinary decodes members in a different order than MarshalBinary encodes them",
 			map[string]interface{}{"marshal": ms1, "unmarshal": us1})
 		// every advance p = p[X.Size():] uses the member just decoded on the same slice value
-		checkAdvances(c, "C03.order", "rtmp|"+T.Obj().Name(), uf)
+		checkAdvances(c, "C03.order", "rtmp|"+core.TypeNameOf(T.Obj()), uf)
 	}
 }
 
